@@ -56,7 +56,17 @@ func genC10(o *hx.Out, tier string) {
 				var data []byte
 				nf := r.Intn(7)
 				for j := 0; j < nf; j++ {
-					switch r.Intn(6) {
+					roll := r.Intn(6)
+					if keyed && roll == 3 {
+						// forged frame dated far ahead: must not move the signature window
+						okey := frame.NewV2Key([]byte("other"))
+						f := validFrame(r, drw, hx.RandMessage(r, d.Messages[0], 2), true, okey).(*frame.V2Frame)
+						f.SignatureTimestamp = 1<<40 + uint64(r.Intn(1000))
+						f.Signature = f.GenerateSignature(okey)
+						data = append(data, frameBytes(drw, f)...)
+						continue
+					}
+					switch roll {
 					case 0: // junk without markers
 						for q := 0; q < 1+r.Intn(5); q++ {
 							data = append(data, byte(r.Intn(253)))
